@@ -66,10 +66,13 @@ func checkC08(c *Ctx) {
 	c08KeyUsage(c)
 	c08PreMaster(c)
 	c08SKE(c)
+	c08SKEKey(c)
 	c08Finished(c)
 	c08ClientAuth(c)
 	c08Transcript(c)
-	c16Gate(c) // a resumed session must satisfy the client-certificate policy too (the gate rule of C16)
+	c10IsValid(c)      // the chain check the clients rely on: validity window, CA flag, path length, names (rule of C10)
+	c10PoolContains(c) // "is itself a root" only for the identical certificate (rule of C10)
+	c16Gate(c)         // a resumed session must satisfy the client-certificate policy too (the gate rule of C16)
 	lostReceiverStores(c, "G-C08-transcript", "gmtls")
 }
 
@@ -1341,4 +1344,122 @@ func c08CacheKey(c *Ctx) {
 		}
 	})
 	c.Check(n > 0 && bad == token.NoPos, rule, fname(f), "with a server name configured, sessions are cached under that name", "", "with a non-empty ServerName the cache key can be something else (the peer address): a session verified for one name is offered, and resumed without any certificate check, when the same address is contacted under another name", bad)
+}
+
+// dataFrom: v is computed (data flow only: operands, values stored into the allocation or its fields) from src
+func dataFrom(v ssa.Value, src ssa.Value, seen map[ssa.Value]bool) bool {
+	if v == nil || seen[v] {
+		return false
+	}
+	seen[v] = true
+	if v == src {
+		return true
+	}
+	if al, ok := v.(*ssa.Alloc); ok {
+		var addrs []ssa.Value
+		addrs = append(addrs, al)
+		for i := 0; i < len(addrs); i++ {
+			a := addrs[i]
+			if a.Referrers() == nil {
+				continue
+			}
+			for _, u := range *a.Referrers() {
+				switch x := u.(type) {
+				case *ssa.FieldAddr:
+					addrs = append(addrs, x)
+				case *ssa.IndexAddr:
+					addrs = append(addrs, x)
+				case *ssa.Store:
+					if x.Addr == a && dataFrom(x.Val, src, seen) {
+						return true
+					}
+				}
+			}
+		}
+		return false
+	}
+	in, ok := v.(ssa.Instruction)
+	if !ok {
+		return false
+	}
+	for _, op := range in.Operands(nil) {
+		if *op != nil && dataFrom(*op, src, seen) {
+			return true
+		}
+	}
+	return false
+}
+
+// c08SKEKey: the ECDHE key agreements check the ServerKeyExchange signature under the key of the certificate the
+// handshake verified — a verification call none of whose operands is computed from the `cert` parameter checks the
+// signature under some other key (e.g. the ephemeral key the same message carries, which any attacker can sign with).
+func c08SKEKey(c *Ctx) {
+	rule := "G-C08-ske"
+	for _, name := range []string{"(*ecdheKeyAgreementGM).processServerKeyExchange", "(*ecdheKeyAgreement).processServerKeyExchange"} {
+		f := c.Fn("gmtls", name)
+		if f == nil {
+			c.Missing(rule, "gmtls."+name, "method", "not found")
+			continue
+		}
+		var cert ssa.Value
+		for _, p := range f.Params {
+			if pname(p) == "cert" {
+				cert = p
+			}
+		}
+		var vcalls []*ssa.Call
+		for _, ci := range allCalls(f) {
+			call, ok := ci.(*ssa.Call)
+			if !ok {
+				continue
+			}
+			nm := ""
+			if sc := call.Call.StaticCallee(); sc != nil {
+				nm = sc.Name()
+			} else if call.Call.IsInvoke() {
+				nm = call.Call.Method.Name()
+			}
+			if strings.Contains(strings.ToLower(nm), "verify") {
+				vcalls = append(vcalls, call)
+			}
+		}
+		if cert == nil || len(vcalls) == 0 {
+			c.Violated(rule, fname(f), "the signature is verified under the certificate's key", fmt.Sprintf("%d verification calls", len(vcalls)), f.Pos())
+			continue
+		}
+		bad := token.NoPos
+		for _, v := range vcalls {
+			from := false
+			for _, op := range v.Operands(nil) {
+				if *op != nil && dataFrom(*op, cert, map[ssa.Value]bool{}) {
+					from = true
+				}
+			}
+			if !from {
+				bad = v.Pos()
+			}
+		}
+		c.Evals += len(vcalls)
+		c.Check(bad == token.NoPos, rule, fname(f), "the signature is verified under the certificate's key", fmt.Sprintf("%d verification call(s), each with an operand computed from cert", len(vcalls)),
+			"a verification call takes no operand computed from the cert parameter: the ServerKeyExchange signature is checked under a key the certificate chain says nothing about", bad)
+		spec, _ := defaultResultSpec(f)
+		for _, v := range vcalls {
+			if _, isErr := v.Type().Underlying().(*types.Interface); !isErr {
+				continue
+			}
+			// `return verify(...)`: the result is the function's result
+			direct := false
+			for _, u := range *v.Referrers() {
+				if _, ok := u.(*ssa.Return); ok {
+					direct = true
+				}
+			}
+			if direct {
+				c.Holds(rule, fname(f), "a signature that does not verify is an error", "the verifier's error is returned as is", v.Pos())
+				continue
+			}
+			where := nonNilReachesSuccess(c.P, f, v, v, spec)
+			c.Check(where == "", rule, fname(f), "a signature that does not verify is an error", "", where, v.Pos())
+		}
+	}
 }
